@@ -144,6 +144,8 @@ def pdDomain (p : PdSrv) : Bool := decide (0 ≤ p.digit)
 
 inductive Kind where
   | sched | repl | pd | labels | version | rmode
+  | reload      -- the same options object reloads from storage (a member re-elected as leader)
+  | foreign     -- another member wrote a configuration to the same storage
   deriving DecidableEq, Repr, Inhabited
 
 structure Obs where
@@ -165,7 +167,14 @@ structure StepOk (defaults registered : List String) (s : Step) : Prop where
   /-- a rejected change leaves the served configuration exactly as it was -/
   rejected : s.ok = false → s.post.served = s.pre.served
   /-- an accepted change is what a new leader reloads, up to the reload normalisation -/
-  durable : s.ok = true → s.post.reloaded = some (normalise defaults s.post.served)
+  durable : s.kind ≠ .reload → s.kind ≠ .foreign → s.ok = true →
+    s.post.reloaded = some (normalise defaults s.post.served)
+  /-- after a reload the member serves, in every section, what the storage holds (what a fresh options
+      object reloads) -/
+  reloaded : s.kind = .reload → s.ok = true →
+    (s.post.reloaded = none ∨ s.post.reloaded = some s.post.served)
+  /-- somebody else's write does not change what this member serves -/
+  foreignKept : s.kind = .foreign → s.post.served = s.pre.served
   /-- values outside their domains are never accepted -/
   domain : s.ok = true →
     (s.kind = .sched → schedDomain registered s.post.served.sched = true) ∧
@@ -180,7 +189,14 @@ def Holds (defaults registered : List String) (steps : List Step) : Prop :=
 def checkRejected (s : Step) : Bool := s.ok || decide (s.post.served = s.pre.served)
 
 def checkDurable (defaults : List String) (s : Step) : Bool :=
-  !s.ok || decide (s.post.reloaded = some (normalise defaults s.post.served))
+  s.kind == .reload || s.kind == .foreign || !s.ok ||
+  decide (s.post.reloaded = some (normalise defaults s.post.served))
+
+def checkReloaded (s : Step) : Bool :=
+  s.kind != .reload || !s.ok || decide (s.post.reloaded = none ∨ s.post.reloaded = some s.post.served)
+
+def checkForeign (s : Step) : Bool :=
+  s.kind != .foreign || decide (s.post.served = s.pre.served)
 
 def checkDomain (registered : List String) (s : Step) : Bool :=
   !s.ok ||
@@ -189,65 +205,130 @@ def checkDomain (registered : List String) (s : Step) : Bool :=
    (s.kind != .pd || pdDomain s.post.served.pd))
 
 def checkStep (defaults registered : List String) (s : Step) : Bool :=
-  !s.crashed && checkRejected s && checkDurable defaults s && checkDomain registered s
+  !s.crashed && checkRejected s && checkDurable defaults s && checkDomain registered s &&
+  checkReloaded s && checkForeign s
 
 def violated (defaults registered : List String) (s : Step) : List String :=
   (if s.crashed then ["operation-panicked"] else []) ++
   (if checkRejected s then [] else ["rejected-change-altered-served"]) ++
   (if checkDurable defaults s then [] else ["accepted-change-not-reloaded"]) ++
-  (if checkDomain registered s then [] else ["out-of-domain-value-accepted"])
+  (if checkDomain registered s then [] else ["out-of-domain-value-accepted"]) ++
+  (if checkReloaded s then [] else ["reload-differs-from-storage"]) ++
+  (if checkForeign s then [] else ["foreign-write-altered-served"])
+
+theorem checkDurable_iff (defaults : List String) (s : Step) :
+    checkDurable defaults s = true ↔
+      (s.kind ≠ .reload → s.kind ≠ .foreign → s.ok = true → s.post.reloaded = some (normalise defaults s.post.served)) := by
+  unfold checkDurable
+  simp only [Bool.or_eq_true, beq_iff_eq, Bool.not_eq_true', decide_eq_true_eq]
+  constructor
+  · intro h h1 h2 hok
+    rcases h with ((h | h) | h) | h
+    · exact absurd h h1
+    · exact absurd h h2
+    · rw [hok] at h; cases h
+    · exact h
+  · intro h
+    by_cases h1 : s.kind = .reload
+    · left; left; left; exact h1
+    · by_cases h2 : s.kind = .foreign
+      · left; left; right; exact h2
+      · cases hok : s.ok with
+        | false => left; right; rfl
+        | true => right; exact h h1 h2 hok
+
+theorem checkReloaded_iff (s : Step) :
+    checkReloaded s = true ↔ (s.kind = .reload → s.ok = true →
+      (s.post.reloaded = none ∨ s.post.reloaded = some s.post.served)) := by
+  unfold checkReloaded
+  simp only [Bool.or_eq_true, bne_iff_ne, ne_eq, Bool.not_eq_true', decide_eq_true_eq]
+  constructor
+  · intro h hk hok
+    rcases h with (h | h) | h
+    · exact absurd hk h
+    · rw [hok] at h; cases h
+    · exact h
+  · intro h
+    by_cases hk : s.kind = .reload
+    · cases hok : s.ok with
+      | false => left; right; rfl
+      | true => right; exact h hk hok
+    · left; left; exact hk
+
+theorem checkForeign_iff (s : Step) :
+    checkForeign s = true ↔ (s.kind = .foreign → s.post.served = s.pre.served) := by
+  unfold checkForeign
+  simp only [Bool.or_eq_true, bne_iff_ne, ne_eq, decide_eq_true_eq]
+  constructor
+  · intro h hk
+    rcases h with h | h
+    · exact absurd hk h
+    · exact h
+  · intro h
+    by_cases hk : s.kind = .foreign
+    · right; exact h hk
+    · left; exact hk
+
+theorem checkRejected_iff (s : Step) : checkRejected s = true ↔ (s.ok = false → s.post.served = s.pre.served) := by
+  unfold checkRejected
+  simp only [Bool.or_eq_true, decide_eq_true_eq]
+  constructor
+  · intro h hok
+    rcases h with h | h
+    · rw [hok] at h; cases h
+    · exact h
+  · intro h
+    cases hok : s.ok with
+    | true => left; rfl
+    | false => right; exact h hok
+
+theorem checkDomain_iff (registered : List String) (s : Step) :
+    checkDomain registered s = true ↔
+      (s.ok = true →
+        (s.kind = .sched → schedDomain registered s.post.served.sched = true) ∧
+        (s.kind = .repl → replDomain s.post.served.repl = true) ∧
+        (s.kind = .pd → pdDomain s.post.served.pd = true)) := by
+  unfold checkDomain
+  simp only [Bool.or_eq_true, Bool.and_eq_true, Bool.not_eq_true', bne_iff_ne, ne_eq]
+  constructor
+  · intro h hok
+    rcases h with h | ⟨⟨ha, hb⟩, hc⟩
+    · rw [hok] at h; cases h
+    · refine ⟨fun hk => ?_, fun hk => ?_, fun hk => ?_⟩
+      · rcases ha with h | h
+        · exact absurd hk h
+        · exact h
+      · rcases hb with h | h
+        · exact absurd hk h
+        · exact h
+      · rcases hc with h | h
+        · exact absurd hk h
+        · exact h
+  · intro h
+    cases hok : s.ok with
+    | false => left; rfl
+    | true =>
+      right
+      obtain ⟨ha, hb, hc⟩ := h hok
+      refine ⟨⟨?_, ?_⟩, ?_⟩
+      · by_cases hk : s.kind = .sched
+        · right; exact ha hk
+        · left; exact hk
+      · by_cases hk : s.kind = .repl
+        · right; exact hb hk
+        · left; exact hk
+      · by_cases hk : s.kind = .pd
+        · right; exact hc hk
+        · left; exact hk
 
 theorem checkStep_iff (defaults registered : List String) (s : Step) :
     checkStep defaults registered s = true ↔ StepOk defaults registered s := by
-  unfold checkStep checkRejected checkDurable checkDomain
+  unfold checkStep
+  simp only [Bool.and_eq_true, Bool.not_eq_true', checkRejected_iff, checkDurable_iff, checkDomain_iff,
+    checkReloaded_iff, checkForeign_iff]
   constructor
-  · intro h
-    simp only [Bool.and_eq_true, Bool.or_eq_true, Bool.not_eq_true', decide_eq_true_eq, bne_iff_ne, ne_eq] at h
-    obtain ⟨⟨⟨h0, h1⟩, h2⟩, h3⟩ := h
-    refine ⟨h0, ?_, ?_, ?_⟩
-    · intro hok; rcases h1 with h | h
-      · rw [hok] at h; cases h
-      · exact h
-    · intro hok; rcases h2 with h | h
-      · rw [hok] at h; cases h
-      · exact h
-    · intro hok
-      rcases h3 with h | ⟨⟨ha, hb⟩, hc⟩
-      · rw [hok] at h; cases h
-      · refine ⟨fun hk => ?_, fun hk => ?_, fun hk => ?_⟩
-        · rcases ha with h | h
-          · exact absurd hk h
-          · exact h
-        · rcases hb with h | h
-          · exact absurd hk h
-          · exact h
-        · rcases hc with h | h
-          · exact absurd hk h
-          · exact h
-  · intro h
-    simp only [Bool.and_eq_true, Bool.or_eq_true, Bool.not_eq_true', decide_eq_true_eq, bne_iff_ne, ne_eq]
-    refine ⟨⟨⟨h.completes, ?_⟩, ?_⟩, ?_⟩
-    · cases hok : s.ok with
-      | true => left; rfl
-      | false => right; exact h.rejected hok
-    · cases hok : s.ok with
-      | false => left; rfl
-      | true => right; exact h.durable hok
-    · cases hok : s.ok with
-      | false => left; rfl
-      | true =>
-        right
-        obtain ⟨ha, hb, hc⟩ := h.domain hok
-        refine ⟨⟨?_, ?_⟩, ?_⟩
-        · by_cases hk : s.kind = .sched
-          · right; exact ha hk
-          · left; exact hk
-        · by_cases hk : s.kind = .repl
-          · right; exact hb hk
-          · left; exact hk
-        · by_cases hk : s.kind = .pd
-          · right; exact hc hk
-          · left; exact hk
+  · rintro ⟨⟨⟨⟨⟨h0, h1⟩, h2⟩, h3⟩, h4⟩, h5⟩; exact ⟨h0, h1, h2, h4, h5, h3⟩
+  · rintro ⟨h0, h1, h2, h4, h5, h3⟩; exact ⟨⟨⟨⟨⟨h0, h1⟩, h2⟩, h3⟩, h4⟩, h5⟩
 
 def check (defaults registered : List String) (steps : List Step) : Bool :=
   steps.all (checkStep defaults registered)
